@@ -167,11 +167,19 @@ def run_case(case):
     half = ncell * res / 2
     mxy = (float(rng.uniform(-0.3, 0.3) * half), float(rng.uniform(-0.3, 0.3) * half))
     dom = (-half, half, -half * 0.8, half * 0.8)
+    if case["idx"] % 5 == 3:
+        # the receptor exactly on a cell centre (an odd number of cells around a tower, a tower placed on the raster): the along-wind
+        # distance of that cell (without wd: of its whole column) is exactly zero
+        ix_, iy_ = int(rng.integers(2, ncell - 2)), int(rng.integers(2, max(3, int(0.8 * ncell) - 2)))
+        mxy = (-half + (ix_ + 0.5) * res, -half * 0.8 + (iy_ + 0.5) * res)
     try:
         gx, gy, ffm = call(zm, z0, ws, ustar, L, sigma_v, dom, res, mxy, wd=wd_arg)
     except Warning as w:
         viol.append({"what": "warning_on_consistent_input", "msg": str(w), "params": (zm, z0, ws, ustar, L, sigma_v)})
         return {"evals": 1, "nontrivial": False, "violations": viol}
+    if not np.all(np.isfinite(ffm)):
+        viol.append({"what": "footprint_not_finite", "cells": int((~np.isfinite(ffm)).sum()), "receptor": mxy, "wd": wd, "res": res,
+                     "params": dict(zm=zm, z0=z0, ws=ws, ustar=ustar, L=L, sigma_v=sigma_v)})
     ex, ey = cell_centres(dom, res)
     if gx.shape != ex.shape or not (np.array_equal(gx, ex) and np.array_equal(gy, ey)):
         viol.append({"what": "grid_coordinates", "shape": gx.shape, "expected": ex.shape})
